@@ -326,6 +326,128 @@ def freshOf (f : Bool) (v : Nat) (roles : Nat → Role) : Sys :=
 /-- roles given as a list (thread `t` has role `rs[t]`) -/
 def rolesOf (rs : List Role) : Nat → Role := fun t => rs.getD t .none
 
+/-! ### provided methods of the comparison traits
+
+`impl PartialEq for Key` defines `eq` only, `impl PartialOrd for Key` defines `partial_cmp` only (as
+`Some(self.cmp(other))`), `impl Ord for Key` defines `cmp` only (source facts `key_trait_impl_methods`,
+`key_partial_cmp_forwards`).  So `!=`, `<`, `<=`, `>`, `>=`, `max`, `min`, `clamp` are the PROVIDED methods of
+`core::cmp`, written out here as the standard library defines them. -/
+
+/-- `PartialEq::ne` (provided): `!self.eq(other)` -/
+def Key.ne (a b : Key) : Bool := !Key.eq a b
+
+/-- `PartialOrd::partial_cmp for Key`: `Some(self.cmp(other))` -/
+def Key.partialCmp (a b : Key) : Option Ordering := some (Key.cmp a b)
+
+/-- `PartialOrd::lt` (provided): `matches!(self.partial_cmp(other), Some(Less))` -/
+def Key.lt (a b : Key) : Bool :=
+  match Key.partialCmp a b with
+  | some .lt => true
+  | _ => false
+
+/-- `PartialOrd::le` (provided): `matches!(self.partial_cmp(other), Some(Less | Equal))` -/
+def Key.le (a b : Key) : Bool :=
+  match Key.partialCmp a b with
+  | some .lt => true
+  | some .eq => true
+  | _ => false
+
+/-- `PartialOrd::gt` (provided): `matches!(self.partial_cmp(other), Some(Greater))` -/
+def Key.gt (a b : Key) : Bool :=
+  match Key.partialCmp a b with
+  | some .gt => true
+  | _ => false
+
+/-- `PartialOrd::ge` (provided): `matches!(self.partial_cmp(other), Some(Greater | Equal))` -/
+def Key.ge (a b : Key) : Bool :=
+  match Key.partialCmp a b with
+  | some .gt => true
+  | some .eq => true
+  | _ => false
+
+/-- `Ord::max` (provided) = `max_by(self, other, Ord::cmp)`: `Less | Equal => other`, `Greater => self` -/
+def Key.max (a b : Key) : Key :=
+  match Key.cmp a b with
+  | .gt => a
+  | _ => b
+
+/-- `Ord::min` (provided) = `min_by(self, other, Ord::cmp)`: `Less | Equal => self`, `Greater => other` -/
+def Key.min (a b : Key) : Key :=
+  match Key.cmp a b with
+  | .gt => b
+  | _ => a
+
+/-- `Ord::clamp` (provided; callers must pass `lo <= hi`, otherwise it panics):
+    `if self < lo { lo } else if self > hi { hi } else { self }` -/
+def Key.clamp (x lo hi : Key) : Key :=
+  if Key.lt x lo then lo else if Key.gt x hi then hi else x
+
+/-! ### construction paths and the memo they leave behind (sequential part)
+
+A `Key` value as the constructors of key.rs make it: the content plus the two memo fields.  `builder` (behind
+`from_name`, `from_parts`, `From<…>`, the non-literal macros and the non-empty branch of `with_extra_labels`) hashes
+at construction; the `const` constructors (`from_static_name`, `from_static_parts`, and `from_static_labels`) start
+with `(false, 0)`; `with_extra_labels(vec![])` is `clone()`; `clone()` copies both memo fields. -/
+
+/-- `Key { name, labels, hashed, hash }` -/
+structure RKey where
+  key : Key
+  hashed : Bool
+  hash : Nat
+  deriving DecidableEq, Repr
+
+/-- `Key::builder(name, labels)`: `hashed = true`, `hash = generate_key_hash(&name, &labels)` -/
+def RKey.builder (H : List Write → Nat) (n : Str) (ls : List Label) : RKey :=
+  ⟨⟨n, ls⟩, true, generateKeyHash H ⟨n, ls⟩⟩
+
+/-- `Key::from_static_parts` / `from_static_labels` / `from_static_name`: `hashed = false`, `hash = 0` -/
+def RKey.static (n : Str) (ls : List Label) : RKey := ⟨⟨n, ls⟩, false, 0⟩
+
+/-- `Clone::clone` while nobody else touches the key: both memo fields are copied -/
+def RKey.clone (k : RKey) : RKey := ⟨k.key, k.hashed, k.hash⟩
+
+/-- `Key::with_extra_labels`: `if extra_labels.is_empty() { return self.clone() }`, else
+    `builder(name.clone(), labels.clone().into_owned() ++ extra_labels)` -/
+def RKey.withExtraLabels (H : List Write → Nat) (k : RKey) (extra : List Label) : RKey :=
+  match extra with
+  | [] => k.clone
+  | _ :: _ => RKey.builder H k.key.name (k.key.labels ++ extra)
+
+/-- `Key::get_hash` run alone: the value returned and the key afterwards -/
+def RKey.getHash (H : List Write → Nat) (k : RKey) : Nat × RKey :=
+  if k.hashed then (k.hash, k) else (generateKeyHash H k.key, ⟨k.key, true, generateKeyHash H k.key⟩)
+
+/-- `Key::into_parts` -/
+def RKey.intoParts (k : RKey) : Str × List Label := (k.key.name, k.key.labels)
+
+/-- how user code obtained a key: a public constructor followed by any number of derivations -/
+inductive Path
+  | fromParts (n : Str) (ls : List Label)    -- `from_name` (no labels), `from_parts`, `From<N>`, `From<(N, L)>`, macros with expressions
+  | fromStatic (n : Str) (ls : List Label)   -- `from_static_name`, `from_static_parts`, `from_static_labels`, macros with literals
+  | withExtra (p : Path) (extra : List Label) -- `p.with_extra_labels(extra)`
+  | clone (p : Path)                          -- `p.clone()`
+  | hashed (p : Path)                         -- `p` after somebody called `get_hash()` on it
+  | reparts (p : Path)                        -- `Key::from_parts(name, labels)` of `p.into_parts()`
+  deriving Repr
+
+/-- the key a path produces -/
+def Path.build (H : List Write → Nat) : Path → RKey
+  | .fromParts n ls => RKey.builder H n ls
+  | .fromStatic n ls => RKey.static n ls
+  | .withExtra p extra => (p.build H).withExtraLabels H extra
+  | .clone p => (p.build H).clone
+  | .hashed p => ((p.build H).getHash H).2
+  | .reparts p => RKey.builder H (p.build H).intoParts.1 (p.build H).intoParts.2
+
+/-- name and labels a path is supposed to produce: the labels given so far, in the order given -/
+def Path.content : Path → Key
+  | .fromParts n ls => ⟨n, ls⟩
+  | .fromStatic n ls => ⟨n, ls⟩
+  | .withExtra p extra => ⟨p.content.name, p.content.labels ++ extra⟩
+  | .clone p => p.content
+  | .hashed p => p.content
+  | .reparts p => p.content
+
 /-! ### `metrics_util::CompositeKey(MetricKind, Key)` — `#[derive(PartialEq, Eq, Hash, PartialOrd, Ord)]`
 
 What registries and the debugging snapshot key their maps with.  The derives compare field by field, in order:
